@@ -344,3 +344,117 @@ def check_accessors(ctx, F, rule):
             ctx.violation(rule, site, "%s (%s)" % (site, F.floc(fid)),
                           "%s addresses %s[%s], expected %s[%s = %s]: this overload reads / writes another region's slot" % (
                               site, got_field, got_idx, field, cname, want), {})
+
+
+# ------------------------------------------------------------------------------------------------ finite-domain evaluation of a statement tree
+class NotEvaluable(Exception):
+    pass
+
+
+_WRAP = {"signed char": (8, True), "unsigned char": (8, False), "short": (16, True), "unsigned short": (16, False), "int": (32, True),
+         "unsigned int": (32, False), "long": (64, True), "unsigned long": (64, False), "bool": (1, False)}
+
+
+def _wrap(v, ty):
+    if ty == "bool":
+        return 1 if v else 0
+    w = _WRAP.get(ty)
+    if not w or not isinstance(v, int):
+        return v
+    bits, signed = w
+    v &= (1 << bits) - 1
+    if signed and v >= 1 << (bits - 1):
+        v -= 1 << bits
+    return v
+
+
+def eval_expr(e, env, leaf):
+    """value of expression `e` (ints / bools) with locals from `env`; `leaf(node)` supplies the value of anything that is not arithmetic
+    (a member read, a call) or raises NotEvaluable.  Integer conversions wrap to the width of the node's type (the abstract machine's rule
+    for the library's fixed-width typedefs); used to evaluate small pure update functions over their whole (finite) input domain."""
+    if e is None:
+        raise NotEvaluable("empty expression")
+    k = e.get("k")
+    if "cv" in e and k != "asg":
+        return e["cv"]
+    if k == "lit":
+        return e.get("v")
+    if k in ("cast", "paren"):
+        return _wrap(eval_expr(e.get("e"), env, leaf), e.get("ty"))
+    if k == "var":
+        if e.get("d") in ("local", "param") and e.get("n") in env:
+            return env[e["n"]]
+        return leaf(e)
+    if k == "cond":
+        return eval_expr(e["t"] if eval_expr(e["c"], env, leaf) else e["f"], env, leaf)
+    if k == "un":
+        op = e.get("op")
+        if op in ("++", "--"):
+            raise NotEvaluable("increment inside an expression")
+        v = eval_expr(e.get("e"), env, leaf)
+        r = {"-": lambda: -v, "+": lambda: v, "!": lambda: 0 if v else 1, "~": lambda: ~v}.get(op)
+        if r is None:
+            raise NotEvaluable("unary %s" % op)
+        return _wrap(r(), e.get("ty"))
+    if k == "bin":
+        op = e.get("op")
+        if op == "&&":
+            return 1 if (eval_expr(e["lhs"], env, leaf) and eval_expr(e["rhs"], env, leaf)) else 0
+        if op == "||":
+            return 1 if (eval_expr(e["lhs"], env, leaf) or eval_expr(e["rhs"], env, leaf)) else 0
+        a, b = eval_expr(e["lhs"], env, leaf), eval_expr(e["rhs"], env, leaf)
+        f = {"+": lambda: a + b, "-": lambda: a - b, "*": lambda: a * b, "&": lambda: a & b, "|": lambda: a | b, "^": lambda: a ^ b,
+             "<<": lambda: a << b, ">>": lambda: a >> b, "<": lambda: int(a < b), "<=": lambda: int(a <= b), ">": lambda: int(a > b),
+             ">=": lambda: int(a >= b), "==": lambda: int(a == b), "!=": lambda: int(a != b)}.get(op)
+        if f is None:
+            raise NotEvaluable("binary %s" % op)
+        return _wrap(f(), e.get("ty"))
+    return leaf(e)
+
+
+def exec_stmt(st, env, leaf, store):
+    """run statement tree `st`: assignments to locals update `env`; an assignment to anything else goes to store(lhs_node, value)"""
+    if st is None:
+        return
+    k = st.get("k")
+    if k == "seq":
+        for x in st.get("s", []):
+            exec_stmt(x, env, leaf, store)
+    elif k == "expr":
+        exec_stmt(st.get("e"), env, leaf, store)
+    elif k == "if":
+        if st.get("init") is not None or st.get("cvar") is not None:
+            raise NotEvaluable("if with initialiser")
+        exec_stmt(st.get("t") if eval_expr(st["c"], env, leaf) else st.get("e"), env, leaf, store)
+    elif k == "decl":
+        for v in st.get("vars", []):
+            if v.get("ref"):
+                continue            # a reference local is an alias: reads / writes go through leaf / store under its own name
+            if v.get("init") is not None:
+                env[v["n"]] = _wrap(eval_expr(v["init"], env, leaf), v.get("ty"))
+    elif k == "asg":
+        lhs = strip(st["lhs"])
+        if st.get("op") == "=":
+            val = eval_expr(st["rhs"], env, leaf)
+        else:
+            op = st["op"][:-1]
+            val = eval_expr({"k": "bin", "op": op, "lhs": st["lhs"], "rhs": st["rhs"], "ty": st.get("ty")}, env, leaf)
+        val = _wrap(val, st.get("ty") or lhs.get("ty"))
+        if lhs.get("k") == "var" and lhs.get("d") == "local" and lhs.get("n") in env:
+            env[lhs["n"]] = val
+        else:
+            store(lhs, val)
+    elif k == "un" and st.get("op") in ("++", "--"):
+        lhs = strip(st["e"])
+        d = 1 if st["op"] == "++" else -1
+        if lhs.get("k") == "var" and lhs.get("n") in env:
+            env[lhs["n"]] = _wrap(env[lhs["n"]] + d, lhs.get("ty"))
+        else:
+            store(lhs, _wrap(leaf(lhs) + d, lhs.get("ty")))
+    elif k in ("null", "noop") or (k == "call" and False):
+        return
+    else:
+        from ..ir import is_noop
+        if is_noop(st):
+            return
+        raise NotEvaluable("statement kind %s" % k)
